@@ -1,3 +1,240 @@
 import B6.Driver.Common
-/-! Driver for C30 — stub (the check for this property is not built yet). -/
-def main : IO Unit := B6.Driver.run { σ := Unit, init := (), step := fun s _ _ => (s, .bad) }
+import B6.Model.Dijkstra
+/-!
+Driver for C30.  State = the `Traverse` adjacency of the current world as dumped by the harness (real
+`World.Traverse` + real `Weights`), which is the model's `Graph`.
+
+ops (points `n<k>`, segments `w<way>.<first>.<last>`, integer weights/distances, `inf` = +Inf):
+  `world <kind> [p …]`                             answer `[pt/seg/first/last/usable/weight …]`  (recorded)
+  `search <o> <max> zu=<0|1> bf=[p:d …]`           answer `[p:d:origin/seg-dest-cost/… …]` sorted by p
+  `searchto <o> <to> <max> zu=<0|1> bf=[p:d …]`    answer as above (all `byPoint` entries after `ExpandSearchTo`)
+
+`bf` = Bellman–Ford distances computed by the harness over the same adjacency (no limit): the reference for
+the property predicate.  `zu` = outcome of the connectivity probe of `NewShortestPathSearchFromPoint`.
+
+Verdicts.  Model answer = `Model.Dijkstra.search` / `searchTo` (exact `container/heap` simulation, every pop
+checked to be a queued minimum).  Predicate on the implementation's answer:
+  `distance`  a reported point's distance differs from the true shortest distance (or the point is unreachable)
+  `route`     a reported route is not a chain of usable segments from the origin with accumulated costs
+              ending at the point with the reported distance
+  `complete`  a point with true distance `< max` is missing (the origin itself is exempt when it has no usable
+              outgoing segment, i.e. is not on the network)
+  `traverse-first`  a dumped segment does not start at the point it was traversed from (outside C30; the
+              route theorem assumes it)
+-/
+open B6.Driver B6.Model.Dijkstra
+namespace B6.Driver.C30
+
+abbrev E := Edge String String Nat
+abbrev T := Table String String Nat
+
+structure World where
+  points : List String
+  edges : List (String × E)        -- (traversed-from point, segment) in dump order
+  ok : Bool                         -- a world line has been seen
+
+def World.graph (w : World) : Graph String String Nat :=
+  ⟨fun p => (w.edges.filter (fun x => x.1 == p)).map (·.2)⟩
+
+def parseNat? (s : String) : Option Nat := s.toNat?
+
+def parseEdge (s : String) : Option (String × E) :=
+  match s.splitOn "/" with
+  | [pt, seg, first, last, u, w] => do
+    let wn ← parseNat? w
+    let ub ← (if u == "1" then some true else if u == "0" then some false else none)
+    pure (pt, { seg := seg, first := first, last := last, usable := ub, weight := wn })
+  | _ => none
+
+/-- `p:d` pairs -/
+def parseBF (s : String) : Option (List (String × Nat)) := do
+  let ws ← parseBracket s
+  ws.mapM fun w => match w.splitOn ":" with
+    | [p, d] => do pure (p, ← parseNat? d)
+    | _ => none
+
+inductive Dist where
+  | fin (n : Nat)
+  | inf
+deriving BEq
+
+structure RStep where
+  seg : String
+  dest : String
+  cost : String
+
+structure REntry where
+  point : String
+  dist : Dist
+  origin : String
+  steps : List RStep
+
+def parseDist (s : String) : Option Dist :=
+  if s == "inf" then some .inf else (parseNat? s).map .fin
+
+def parseEntry (s : String) : Option REntry :=
+  match s.splitOn ":" with
+  | [p, d, route] => do
+    let dist ← parseDist d
+    match route.splitOn "/" with
+    | [] => none
+    | o :: rest =>
+      let steps ← rest.mapM fun st => match st.splitOn "-" with
+        | [seg, dest, cost] => some { seg := seg, dest := dest, cost := cost : RStep }
+        | _ => none
+      pure { point := p, dist := dist, origin := o, steps := steps }
+  | _ => none
+
+def parseEntries (s : String) : Option (List REntry) := do
+  let ws ← parseBracket s
+  ws.mapM parseEntry
+
+/-! rendering of the model's table, same format as the harness -/
+
+def strLe (a b : String) : Bool := a < b || a == b
+
+def renderEntry (t : T) (inf : Option Nat) (p : String) (e : Entry String String Nat) : Option String := do
+  let (o, steps) ← buildRoute t (t.length + 1) p []
+  let d := if inf == some e.dist then "inf" else toString e.dist
+  let parts := o :: steps.map fun st => s!"{st.via.seg}-{st.dest}-{st.cost}"
+  pure s!"{p}:{d}:{"/".intercalate parts}"
+
+def renderTable (t : T) (inf : Option Nat) : String :=
+  let rows := t.map fun (p, e) => (p, match renderEntry t inf p e with
+    | some s => s
+    | none => s!"{p}:loop")       -- BuildRoute would not terminate
+  let sorted := rows.mergeSort (fun a b => strLe a.1 b.1)
+  renderList (sorted.map (·.2))
+
+/-! the property predicate on the implementation's answer -/
+
+def lookupBF (bf : List (String × Nat)) (p : String) : Option Nat := (bf.find? (·.1 == p)).map (·.2)
+
+/-- follow the reported steps over the dumped adjacency -/
+def routeOk (w : World) (origin : String) (en : REntry) : Bool :=
+  let rec go (cur : String) (cost : Nat) : List RStep → Option (String × Nat)
+    | [] => some (cur, cost)
+    | st :: rest =>
+      match (w.graph.adj cur).find? (fun e => e.seg == st.seg) with
+      | none => none
+      | some e =>
+        if e.usable && e.first == cur && e.last == st.dest && st.cost == toString (cost + e.weight)
+        then go e.last (cost + e.weight) rest else none
+  en.origin == origin &&
+  match go origin 0 en.steps with
+  | some (cur, cost) => cur == en.point && en.dist == Dist.fin cost
+  | none => false
+
+def onNetwork (w : World) (o : String) : Bool := (w.graph.adj o).any (·.usable)
+
+def firstOk (w : World) : Bool := w.edges.all fun (pt, e) => e.first == pt
+
+/-- clause that fails for a full `ExpandSearch`, if any -/
+def searchPredicate (w : World) (o : String) (max : Nat) (bf : List (String × Nat)) (ans : List REntry) :
+    Option String :=
+  if !firstOk w then some "traverse-first" else
+  if ans.any (fun en => match en.dist with
+      | .fin d => lookupBF bf en.point != some d
+      | .inf => true) then some "distance" else
+  if ans.any (fun en => !routeOk w o en) then some "route" else
+  if bf.any (fun (p, d) => d < max && !(p == o && !onNetwork w o) && !(ans.any (·.point == p)))
+    then some "complete" else
+  none
+
+/-- `ExpandSearchTo`: the destination's entry must be final; every other finite entry must be a sound route
+whose cost is not below the true distance. -/
+def searchToPredicate (w : World) (o dest : String) (max : Nat) (bf : List (String × Nat)) (ans : List REntry) :
+    Option String :=
+  if !firstOk w then some "traverse-first" else
+  let destEntry := ans.find? (·.point == dest)
+  let want := match lookupBF bf dest with
+    | some d => if d < max && onNetwork w o then some d else none
+    | none => none
+  let destBad := match want, destEntry with
+    | some d, some en => !(en.dist == Dist.fin d)
+    | some _, none => true
+    | none, some en => !(en.dist == Dist.inf && en.steps.isEmpty)
+    | none, none => false
+  if destBad then some (if want.isSome then "complete" else "distance") else
+  if ans.any (fun en => match en.dist with
+      | .fin d => match lookupBF bf en.point with
+        | some b => d < b
+        | none => true
+      | .inf => en.point != dest) then some "distance" else
+  if ans.any (fun en => en.dist != Dist.inf && !routeOk w o en) then some "route" else
+  none
+
+def judge (impl model : String) (clause : Option String) : Verdict :=
+  match clause with
+  | some c => .propfail c
+  | none => if impl == model then .ok else .diff model
+
+/-- `bf=[…]` is the tail of the op text -/
+def splitBF (op : String) : Option (String × String) :=
+  match op.splitOn " bf=" with
+  | [a, b] => some (a, b)
+  | _ => none
+
+def step (w : World) (op impl : String) : World × Verdict :=
+  match words op with
+  | "world" :: _kind :: _ =>
+    let ptsText := " ".intercalate ((words op).drop 2)
+    match parseBracket ptsText, parseBracket impl with
+    | some pts, some es =>
+      match es.mapM parseEdge with
+      | some edges => ({ points := pts, edges := edges, ok := true }, .ok)
+      | none => (w, .bad)
+    | _, _ => (w, .bad)
+  | "search" :: _ =>
+    match splitBF op with
+    | none => (w, .bad)
+    | some (head, bfText) =>
+      match words head, parseBF bfText, parseEntries impl with
+      | ["search", o, maxS, zuS], some bf, some ans =>
+        match parseNat? maxS, w.ok, (zuS == "zu=1" || zuS == "zu=0") with
+        | some max, true, true =>
+          let origins := if zuS == "zu=1" then [o] else []
+          let fuel := 4 * (w.points.length + 4)
+          match search w.graph max origins fuel with
+          | .done s' =>
+            if !allVisited s'.t then (w, .bad) else
+            let model := renderTable s'.t none
+            -- the model's own distances must agree with the reference (else the machinery is wrong)
+            let modelOk := s'.t.all fun (p, e) => lookupBF bf p == some e.dist
+            if !modelOk then (w, .bad) else
+            (w, judge impl model (searchPredicate w o max bf ans))
+          | _ => (w, .bad)
+        | _, _, _ => (w, .bad)
+      | _, _, _ =>
+        -- an answer that does not parse (panic, non-integer distance, …) breaks the property outright
+        match words head, parseBF bfText with
+        | ["search", _, _, _], some _ => (w, .propfail "distance")
+        | _, _ => (w, .bad)
+  | "searchto" :: _ =>
+    match splitBF op with
+    | none => (w, .bad)
+    | some (head, bfText) =>
+      match words head, parseBF bfText, parseEntries impl with
+      | ["searchto", o, dest, maxS, zuS], some bf, some ans =>
+        match parseNat? maxS, w.ok, (zuS == "zu=1" || zuS == "zu=0"), o == dest with
+        | some max, true, true, false =>
+          let origins := if zuS == "zu=1" then [o] else []
+          let fuel := 4 * (w.points.length + 4)
+          let inf := max + 1
+          match searchTo w.graph max inf origins dest fuel with
+          | some (.done s') =>
+            let model := renderTable s'.t (some inf)
+            (w, judge impl model (searchToPredicate w o dest max bf ans))
+          | _ => (w, .bad)
+        | _, _, _, _ => (w, .bad)
+      | _, _, _ =>
+        match words head, parseBF bfText with
+        | ["searchto", _, _, _, _], some _ => (w, .propfail "distance")
+        | _, _ => (w, .bad)
+  | _ => (w, .bad)
+
+def family : Family := { σ := World, init := { points := [], edges := [], ok := false }, step := step }
+
+end B6.Driver.C30
+
+def main : IO Unit := B6.Driver.run B6.Driver.C30.family
